@@ -333,6 +333,45 @@ pub fn run(ctx: &Ctx) -> i32 {
           cells.push(c); // duplicates
           let _ = k;
         }
+        // thousands of NON-consecutive cells inside one aligned coarse cell whose first sub-cell is
+        // pushed (every 2nd / 3rd cell of a 4^7-cell tile, and a tile with a few holes)
+        if *d >= 7 {
+          let tile = 1u64 << 14;
+          let t0 = (next() % (nh / tile)) * tile;
+          let stride = 2 + (*salt % 2);
+          cells.extend((0..tile).step_by(stride as usize).map(|k| t0 + k));
+          let t1 = (t0 + 5 * tile) % nh;
+          cells.extend((0..tile).filter(|k| k % 1000 != 999).map(|k| t1 + k));
+        }
+        // clustered sets ALONE in the buffer: thousands of non-consecutive cells of one tile
+        // (typical of a catalogue restricted to one coarse cell)
+        let mut alone: Vec<Vec<u64>> = vec![];
+        if *d >= 7 {
+          for (tile_bits, stride) in [(14u32, 3u64), (14, 2), (16, 7)] {
+            let tile = 1u64 << tile_bits;
+            if tile > nh {
+              continue;
+            }
+            let t0 = (next() % (nh / tile)) * tile;
+            alone.push((0..tile).step_by(stride as usize).map(|k| t0 + k).collect());
+            // pseudo-random cells of the tile, first cell included, pushed unordered with repeats
+            let mut v: Vec<u64> = vec![t0];
+            for _ in 0..5000 {
+              v.push(t0 + next() % tile);
+            }
+            alone.push(v);
+          }
+        }
+        for seq in &alone {
+          for &cap in &[1000usize, 5000, 9001, 1_000_000] {
+            for full in [true, false] {
+              part.stratum("bulk-pushes-one-tile", 1, 1);
+              if let Some(v) = check_history(*d, full, cap, seq, &mut part) {
+                part.viol(v);
+              }
+            }
+          }
+        }
         let mut asc = cells.clone();
         asc.sort();
         let desc: Vec<u64> = asc.iter().rev().cloned().collect();
